@@ -183,31 +183,42 @@ func runCheck(eng *Engine, start time.Time) int {
 						}
 					}
 				}
+				// variant 0: no case split; variants 1..2^n: one per combination of the split terms
+				{
+					i1, _ := BuildScript(ias, igoal, nil, false)
+					i2, _ := BuildScript(ias, igoal, nil, true)
+					fz := fmt.Sprintf("%s.inst.smt2", strings.TrimSuffix(f1, ".smt2"))
+					fc := fmt.Sprintf("%s.inst.cvc5.smt2", strings.TrimSuffix(f1, ".smt2"))
+					os.WriteFile(fz, []byte(i1), 0644)
+					os.WriteFile(fc, []byte(i2), 0644)
+					j.iz3 = append(j.iz3, fz)
+					j.icvc = append(j.icvc, fc)
+				}
 				ncase := 1 << uint(len(splits))
+				if len(splits) == 0 {
+					ncase = 0
+				}
 				for cs := 0; cs < ncase; cs++ {
-					cas, cgoal := ias, igoal
-					if len(splits) > 0 {
-						sub := map[*Term]*Term{}
-						var fix []*Term
-						for bi, sp := range splits {
-							if cs&(1<<uint(bi)) != 0 {
-								sub[sp] = TTrue
-								fix = append(fix, sp)
-							} else {
-								sub[sp] = TFalse
-								fix = append(fix, Not(sp))
-							}
+					sub := map[*Term]*Term{}
+					var fix []*Term
+					for bi, sp := range splits {
+						if cs&(1<<uint(bi)) != 0 {
+							sub[sp] = TTrue
+							fix = append(fix, sp)
+						} else {
+							sub[sp] = TFalse
+							fix = append(fix, Not(sp))
 						}
-						ras := make([]*Term, 0, len(as)+len(fix))
-						for _, a := range as {
-							ras = append(ras, replaceTerms(a, sub))
-						}
-						ras = append(ras, fix...)
-						rg := replaceTerms(goal, sub)
-						cas, cgoal = prepareVCq(ras, rg)
-						if cgoal == nil {
-							cas, cgoal = ras, rg
-						}
+					}
+					ras := make([]*Term, 0, len(as)+len(fix))
+					for _, a := range as {
+						ras = append(ras, replaceTerms(a, sub))
+					}
+					ras = append(ras, fix...)
+					rg := replaceTerms(goal, sub)
+					cas, cgoal := prepareVCq(ras, rg)
+					if cgoal == nil {
+						cas, cgoal = ras, rg
 					}
 					i1, _ := BuildScript(cas, cgoal, nil, false)
 					i2, _ := BuildScript(cas, cgoal, nil, true)
@@ -253,12 +264,20 @@ func runCheck(eng *Engine, start time.Time) int {
 				}
 				all := true
 				var tot float64
-				for ci := range j.iz3 {
-					r = raceFiles(j.iz3[ci], j.icvc[ci], it, seed, false)
-					tot += r.Time
-					if r.Status != "unsat" {
+				// unsplit variant first; only if it is not conclusive, every split case must be
+				r = raceFiles(j.iz3[0], j.icvc[0], it, seed, false)
+				tot += r.Time
+				if r.Status != "unsat" {
+					if len(j.iz3) == 1 {
 						all = false
-						break
+					}
+					for ci := 1; ci < len(j.iz3); ci++ {
+						r = raceFiles(j.iz3[ci], j.icvc[ci], it, seed, false)
+						tot += r.Time
+						if r.Status != "unsat" {
+							all = false
+							break
+						}
 					}
 				}
 				if all {
